@@ -1,0 +1,19 @@
+//go:build verif
+// +build verif
+
+package blocker
+
+import "time"
+
+// VerifSetSequencerResolution sets the sequencer tick length and returns the previous one.
+func VerifSetSequencerResolution(d time.Duration) time.Duration {
+	old := sequencerResolution
+	sequencerResolution = d
+	return old
+}
+
+// VerifSweep runs one blocking sweep, exactly what the wake-up timer does.
+func (b *Blocker) VerifSweep() { b.block() }
+
+// VerifSequence returns the current value of the monotonic sequencer.
+func (b *Blocker) VerifSequence() uint64 { return b.sequence.Load() }
